@@ -40,25 +40,29 @@ theorem resolveScan_at_boundary (node : Node) (start : Nat) : ∀ (pre rest : Li
     simp only [List.length_cons, fsize_cons]
     congr 3 <;> omega
 
-/-- resolving a child boundary of a nested level: the last path entry is the level's node, its index the boundary -/
+/-- resolving a child boundary of a nested level: the last path entry is the level's node, its index the boundary; the
+    path has one entry per level, the entry above the last one points at the level's node -/
 theorem resolveScan_lvl (S : Schema) {ty tyP : TypeId} {K L : List Node} {b nd : Nat} {ctx : List Node → List Node}
     (h : Lvl ty K b nd tyP L ctx) (pre post : List Node) (hL : L = pre ++ post) (hpre : fnormKids pre = true) :
     ∀ (node : Node) (start : Nat), node.kids = K → S.tyOf node = ty →
       ∃ path e, resolveScan node start K 0 0 (b + fsize pre) = some path ∧ path.getLast? = some e ∧
-        e.index = pre.length ∧ e.node.kids = L ∧ S.tyOf e.node = tyP ∧ e.pos = start + b + fsize pre := by
+        e.index = pre.length ∧ e.node.kids = L ∧ S.tyOf e.node = tyP ∧ e.pos = start + b + fsize pre ∧
+        path.length = nd + 1 ∧ (nd ≠ 0 → ∃ e', path[nd - 1]? = some e' ∧ e'.pos + 1 = start + b) := by
   induction h with
   | here ty K =>
     intro node start hk hty
     subst hL
-    refine ⟨_, _, by rw [Nat.zero_add]; exact resolveScan_at_boundary node start pre post 0 0 hpre, rfl, ?_, hk, hty, ?_⟩
+    refine ⟨_, _, by rw [Nat.zero_add]; exact resolveScan_at_boundary node start pre post 0 0 hpre, rfl, ?_, hk, hty, ?_,
+      rfl, fun h => absurd rfl h⟩
     · simp
     · simp
   | @down tyC tyP kidsC L b nd ctx ty pre0 aC mC ns hp hl ih =>
     intro node start hk hty
     have hr := hl.range
     have hsz : fsize L = fsize pre + fsize post := by rw [hL, fsize_append]
-    obtain ⟨path, e, h1, h2, h3, h4, h5, h6⟩ := ih hL (.elem tyC aC mC kidsC) (start + (0 + fsize pre0) + 1) rfl rfl
-    refine ⟨⟨node, 0 + pre0.length, start + (0 + fsize pre0)⟩ :: path, e, ?_, ?_, h3, h4, h5, ?_⟩
+    obtain ⟨path, e, h1, h2, h3, h4, h5, h6, h7, h8⟩ :=
+      ih hL (.elem tyC aC mC kidsC) (start + (0 + fsize pre0) + 1) rfl rfl
+    refine ⟨⟨node, 0 + pre0.length, start + (0 + fsize pre0)⟩ :: path, e, ?_, ?_, h3, h4, h5, ?_, ?_, ?_⟩
     · rw [show fsize pre0 + 1 + b + fsize pre = fsize pre0 + (1 + b + fsize pre) by omega,
         resolveScan_skip node start pre0 _ 0 0 _ (by omega)]
       conv => lhs; unfold resolveScan
@@ -68,14 +72,26 @@ theorem resolveScan_lvl (S : Schema) {ty tyP : TypeId} {K L : List Node} {b nd :
       | nil => simp at h2
       | cons x xs => simpa using h2
     · rw [h6]; omega
+    · simp [h7]
+    · intro _
+      by_cases hz : nd = 0
+      · subst hz
+        obtain ⟨hb, _⟩ := hl.zero
+        subst hb
+        exact ⟨⟨node, 0 + pre0.length, start + (0 + fsize pre0)⟩, by simp, by simp only []; omega⟩
+      · obtain ⟨e', he1, he2⟩ := h8 hz
+        refine ⟨e', ?_, by rw [he2]; omega⟩
+        rw [show nd + 1 - 1 = (nd - 1) + 1 by omega, List.getElem?_cons_succ]
+        exact he1
 
 /-- **the resolved child boundary of a nested node** -/
 theorem resolve_at_boundary (S : Schema) (ty0 : TypeId) (a0 : Attrs) (m0 : Marks) {K : List Node} {b nd : Nat}
     {tyP : TypeId} {ctx : List Node → List Node} {pre post : List Node}
     (hl : Lvl ty0 K b nd tyP (pre ++ post) ctx) (hpre : fnormKids pre = true) :
     ∃ rp, (Node.elem ty0 a0 m0 K).resolve (b + fsize pre) = some rp ∧ rp.parent.kids = pre ++ post ∧
-      S.tyOf rp.parent = tyP ∧ rp.index rp.depth = pre.length ∧ rp.textOffset = 0 := by
-  obtain ⟨path, e, h1, h2, h3, h4, h5, h6⟩ :=
+      S.tyOf rp.parent = tyP ∧ rp.index rp.depth = pre.length ∧ rp.textOffset = 0 ∧
+      rp.depth = nd ∧ rp.start rp.depth = b := by
+  obtain ⟨path, e, h1, h2, h3, h4, h5, h6, h7, h8⟩ :=
     resolveScan_lvl S hl pre post rfl hpre (.elem ty0 a0 m0 K) 0 rfl rfl
   have hr := hl.range
   rw [fsize_append] at hr
@@ -86,7 +102,8 @@ theorem resolve_at_boundary (S : Schema) (ty0 : TypeId) (a0 : Attrs) (m0 : Marks
       rw [List.getLast?_eq_getElem?] at h2
       simp only [List.length_cons, Nat.add_sub_cancel] at h2 ⊢
       rw [getElem!_pos _ _ (by simp), ← Option.some.injEq, ← h2, List.getElem?_eq_getElem (by simp)]
-  refine ⟨⟨b + fsize pre, path⟩, ?_, ?_, ?_, ?_, ?_⟩
+  have hdep : (RPos.mk (b + fsize pre) path).depth = nd := by simp [RPos.depth, h7]
+  refine ⟨⟨b + fsize pre, path⟩, ?_, ?_, ?_, ?_, ?_, hdep, ?_⟩
   · simp only [Node.resolve, Node.kids, h1, Option.map_some]
     rw [if_pos (by omega)]
   · simp only [RPos.parent, RPos.node, RPos.entry, RPos.depth, hlast, h4]
@@ -94,5 +111,17 @@ theorem resolve_at_boundary (S : Schema) (ty0 : TypeId) (a0 : Attrs) (m0 : Marks
   · simp only [RPos.index, RPos.entry, RPos.depth, hlast, h3]
   · simp only [RPos.textOffset, RPos.entry, RPos.depth, hlast, h6]
     omega
+  · rw [hdep]
+    unfold RPos.start
+    by_cases hz : nd = 0
+    · subst hz
+      obtain ⟨hb, _⟩ := hl.zero
+      simp [hb]
+    · obtain ⟨e', he1, he2⟩ := h8 hz
+      rw [if_neg hz]
+      simp only [RPos.entry]
+      have : path[nd - 1]! = e' := by
+        rw [getElem!_pos _ _ (by omega), ← Option.some.injEq, ← he1, List.getElem?_eq_getElem (by omega)]
+      rw [this]; omega
 
 end PM
